@@ -145,6 +145,17 @@ impl Session {
             .join(" ")
     }
 
+    /// `create_missing_prefixes` registers the prefixes n0, n1, … it needs, in this order; make the
+    /// vocabulary know every one of them (ids are dense, registration order = numeric order).
+    pub fn sync_generated_prefixes(&mut self) {
+        for k in 0.. {
+            match self.xot.prefix(&format!("n{}", k)) {
+                Some(id) => { self.vocab.sync_prefix(&self.xot, id); }
+                None => break,
+            }
+        }
+    }
+
     fn emit(&mut self, sink: &mut Sink, req: String, resp: String) {
         self.history.push(format!("{} -> {}", req, resp));
         sink.emit(format!("forest {}", req), resp);
@@ -281,6 +292,16 @@ impl Session {
             "strip_ws" => {
                 let a = n(self, 1);
                 match guarded(|| self.xot.remove_insignificant_whitespace(a)) { None => "panic".into(), Some(()) => "ok".into() }
+            }
+            "create_missing_prefixes" => {
+                let a = n(self, 1);
+                let r = guarded(|| self.xot.create_missing_prefixes(a));
+                self.sync_generated_prefixes();
+                match r { None => "panic".into(), Some(Ok(())) => "ok".into(), Some(Err(e)) => err_str(&e) }
+            }
+            "dedup" => {
+                let a = n(self, 1);
+                match guarded(|| self.xot.deduplicate_namespaces(a)) { None => "panic".into(), Some(()) => "ok".into() }
             }
             "dump" => self.dump(),
             "inv" => if self.validate().is_none() { "1".into() } else { "0".into() },
@@ -459,6 +480,7 @@ const OPS: &[(&str, usize)] = &[
     ("replace", 6), ("unwrap", 5), ("wrap", 5), ("clone", 4), ("any_append", 5), ("append_attr_node", 2),
     ("append_ns_node", 2), ("map_insert", 6), ("map_remove", 4), ("map_clear", 1), ("set_name", 2), ("set_text", 3),
     ("set_comment", 2), ("set_pi_data", 2), ("text_content_set", 3), ("strip_ws", 2), ("new", 8), ("cons", 1),
+    ("create_missing_prefixes", 4), ("dedup", 4),
 ];
 
 fn pick_op(rng: &mut Rng) -> &'static str {
@@ -551,6 +573,12 @@ pub fn one_history(rng: &mut Rng, sink: &mut Sink, n_ops: usize, allow_cons_off:
             "append_attr_node" | "append_ns_node" => format!("{} {} {}", op, e, b),
             "detach" | "remove" | "unwrap" => format!("{} {}", op, b),
             "clone" | "strip_ws" => format!("{} {}", op, a),
+            "create_missing_prefixes" | "dedup" => {
+                // both read names and namespaces: the model needs the current vocabulary
+                s.dump();
+                sink.emit(s.vocab.wire(), "ok".to_string());
+                format!("{} {}", op, if rng.chance(3, 4) { e } else { a })
+            }
             "wrap" => format!("wrap {} {}", b, rng.pick(&[2usize, 6])),
             "map_insert" => {
                 if rng.chance(1, 2) {
